@@ -102,14 +102,16 @@ def c_uart_rx_link(tmin=10, ppm50=True):
     r0, r1, rxs, rx_d, count, data, phase, tick = _rx_regs(h, rx)
     st, enc = rx.fsm.state, rx.fsm.encoding
     idle = eqc(V(st), enc["IDLE"]); run = eqc(V(st), enc["RUN"])
-    W = 44
+    W = 40
     def S(x): return zx(x, W)
     def C(x): return z3.BitVecVal(x, W)
     twr = h.const("twr", 32); twt = h.const("twt", 32); R = S(twr); T = S(twt)
     BIT = 1 << 32
     h.assume(V(d.tw) == twr, "the receiver's tuning word is configuration: constant (rigid symbolic 32-bit value)")
     h.assume(z3.And(z3.UGE(twr, K(1, 32)), z3.ULE(twr, K(BIT // tmin, 32))), f"programmed bit period 2^32/tuning_word is at least {tmin} system clock cycles")
-    h.assume(z3.And(50 * (T - R) + R >= C(0), 50 * (R - T) + R >= C(0), z3.ULE(twt, K(BIT // 8, 32))), "the transmitter's bit rate is within +-2% of the programmed one: |twt - twr| * 50 <= twr (rigid symbolic tuning word of the ideal transmitter)")
+    tol = h.const("tol", 32); TOL = S(tol)
+    h.assume(z3.And((T - R) + TOL >= C(0), (R - T) + TOL >= C(0), R - 50 * TOL >= C(0), z3.ULE(twt, K(BIT // 8, 32)), z3.ULE(tol, K(BIT // 64, 32))),
+             "the transmitter's bit rate is within +-2% of the programmed one: |twt - twr| <= tol with 50 * tol <= twr, i.e. |twt - twr| <= floor(twr / 50) (rigid symbolic tuning word of the ideal transmitter)")
     # ---- ghost ideal transmitter
     t_act = h.ghost("t_act", 1); t_acc = h.ghost("t_acc", W); t_byte = h.ghost("t_byte", 8); boot = h.ghost("boot", 2); dlv = h.ghost("delivered", 1)
     act = b(t_act); full = boot == K(3, 2)
@@ -119,7 +121,7 @@ def c_uart_rx_link(tmin=10, ppm50=True):
     h.assume(z3.ULT(V(ph), twt), "phase of the transmitter's bit clock relative to the system clock at the start bit: any value in [0, one cycle)")
     h.ghost_next(boot, z3.If(full, boot, boot + 1))
     h.ghost_next(t_act, z3.If(end_, V(go), K(1, 1)))
-    h.ghost_next(t_acc, z3.If(start, S(V(ph)), z3.If(end_, C(0), t_acc + T)))
+    ideal_acc = z3.If(start, S(V(ph)), z3.If(end_, C(0), t_acc + T))     # transition function of the ideal transmitter's phase
     h.ghost_next(t_byte, z3.If(start, V(byte), t_byte))
     valid = b(V(src.valid))
     h.ghost_next(dlv, z3.If(start, K(0, 1), z3.If(valid, K(1, 1), dlv)))
@@ -144,16 +146,24 @@ def c_uart_rx_link(tmin=10, ppm50=True):
     e = S(z3.Concat(V(count) + zx(V(tick), 4), V(phase))) - C(BIT // 2)      # phase elapsed in the receiver since it entered RUN (real registers)
     # ghost copies that keep the drift argument additive: E = elapsed receiver phase, X = t_acc - E - 3*T = phase of the transmitter at the
     # detection (in [0, T)) plus the accumulated drift; per cycle X moves by the rigid amount T - R, |50 * (T - R)| <= R
-    E = h.ghost("E", W); X = h.ghost("X", W); U = h.ghost("U", W)       # U = T - X: distance to the late end of the window
+    # While the receiver is in RUN the transmitter's phase is carried as t_acc == X + E + 3*T, with E = elapsed receiver phase (+R per cycle) and
+    # X = transmitter phase at the detection (in [0, T)) plus the accumulated drift (+(T-R) per cycle); G = (cycles in RUN) * tol bounds the drift.
+    # In RUN the ghost's next phase is written in this regrouped form (bit-blasting cannot re-associate sums); `ens.ghost-is-ideal-tx` below
+    # certifies that in every reachable state it equals the ideal transition function (t_acc + T), so the ghost IS the ideal transmitter.
+    E = h.ghost("E", W); X = h.ghost("X", W); G = h.ghost("G", W)
+    GMAX = int(0.1911 * BIT)
     h.ghost_next(E, z3.If(run, E + R, C(0)))
     h.ghost_next(X, z3.If(run, X + (T - R), t_acc - 2 * T))
-    h.ghost_next(U, z3.If(run, U + (R - T), 3 * T - t_acc))
+    h.ghost_next(G, z3.If(run, G + TOL, C(0)))
+    h.ghost_next(t_acc, z3.If(run, ((X + (T - R)) + (E + R)) + 3 * T, ideal_acc))
     h.hint("run", z3.Implies(run, z3.And(act, full, dlv == zero, ule(V(count), 9))))
-    h.hint("E", z3.Implies(run, z3.And(E == e, E >= C(0), E < C(11 * BIT))))
-    h.hint("X.link", z3.Implies(run, z3.And(t_acc == X + E + 3 * T, U == T - X)))
-    h.hint("lo", z3.Implies(run, 50 * X + E >= C(0)))
-    h.hint("hi", z3.Implies(run, 50 * U + E > C(0)))
-    h.hint("X.range", z3.Implies(run, z3.And(X > C(-BIT), X < C(BIT), U > C(-BIT), U < C(BIT))))
+    h.hint("E", z3.Implies(run, z3.And(E == e, E >= C(0), E < C(19 * BIT // 2) + R)))
+    h.hint("X.link", z3.Implies(run, t_acc == (X + E) + 3 * T))
+    h.hint("lo", z3.Implies(run, X + G >= C(0)))
+    h.hint("hi", z3.Implies(run, (G - X) + (T - 1) >= C(0)))
+    h.hint("E-50G", z3.Implies(run, E - 50 * G >= C(0)))
+    h.hint("G.range", z3.Implies(run, z3.And(G >= C(0), G <= C(GMAX))))
+    h.hint("X.range", z3.Implies(run, z3.And(X > C(-BIT), X < C(BIT))))
     h.hint("notend", z3.Implies(run, t_acc + T < C(10 * BIT)))
     h.hint("tickphase", z3.Implies(z3.And(run, b(V(tick))), z3.ULT(V(phase), twr)))
     h.hint("post", z3.Implies(z3.And(act, dlv == one), z3.And(idle, t_acc >= C(9 * BIT) + 3 * T)))
@@ -161,6 +171,7 @@ def c_uart_rx_link(tmin=10, ppm50=True):
         h.hint(f"asm{n}", z3.Implies(z3.And(run, eqc(V(count), n)), z3.Extract(7, 9 - n, V(data)) == z3.Extract(n - 2, 0, t_byte)))
     # ---- postconditions (from the property)
     sample = z3.And(run, b(V(tick)))
+    h.ensure("ens.ghost-is-ideal-tx", z3.Implies(run, h.primed(t_acc) == ideal_acc))                # (in the other states the two are the same expression)
     h.ensure("ens.sample-in-bit", z3.Implies(sample, V(rxs) == fbit(V(count))))                      # the k-th sample is taken inside bit k of the frame
     h.ensure("ens.recover", z3.Implies(valid, z3.And(act, V(src.data) == t_byte, dlv == zero)))         # the byte delivered is the byte transmitted, once
     h.ensure("ens.all-delivered", z3.Implies(z3.And(act, end_), dlv == one))                           # every frame is delivered before its stop bit ends
